@@ -20,7 +20,7 @@ variable {α : Type}
 theorem C11_lazy (ops : List String)
     (h : ∀ op ∈ ops, parseOp op = some (.basic .build) ∨ (∃ h, parseOp op = some (.basic (.ob h))) ∨
       (∃ h, parseOp op = some (.basic (.so h))) ∨ (∃ j, parseOp op = some (.sel j)) ∨
-      (∃ j c b, parseOp op = some (.derive j c b))) :
+      (∃ j c b, parseOp op = some (.derive j c b)) ∨ (∃ j c k, parseOp op = some (.deriveRet j c k))) :
     ∀ (st : ISt), (foldOps stepOp st ops).1.w = st.w := by
   induction ops with
   | nil => intro st; rfl
@@ -31,15 +31,16 @@ theorem C11_lazy (ops : List String)
     rw [foldOps_cons]
     show (foldOps stepOp (stepOp st op).1 ops).1.w = st.w
     rw [ih']
-    rcases hop with hb | ⟨hh, hb⟩ | ⟨hh, hb⟩ | ⟨j, hb⟩ | ⟨j, c, b, hb⟩ <;> simp only [stepOp, hb, implStep]
-    · cases st.regs st.cur <;> simp only []
+    rcases hop with hb | ⟨hh, hb⟩ | ⟨hh, hb⟩ | ⟨j, hb⟩ | ⟨j, c, b, hb⟩ | ⟨j, c, k, hb⟩ <;> simp only [stepOp, hb, implStep]
+    · cases st.regs st.cur <;> simp only [queues, Bool.false_eq_true, if_false]
       split <;> rfl
-    · cases st.regs st.cur <;> simp only []
+    · cases st.regs st.cur <;> simp only [queues, Bool.false_eq_true, if_false]
       split <;> rfl
-    · cases st.regs st.cur <;> simp only []
+    · cases st.regs st.cur <;> simp only [queues, Bool.false_eq_true, if_false]
       split <;> rfl
     · cases st.regs j <;> rfl
     · cases st.regs st.cur <;> rfl
+    · cases st.regs st.cur <;> cases st.regs k <;> rfl
 
 /-- every case starts from the empty world, nothing pending, whatever the tree: construction of `den t 0` contributes
     nothing -/
@@ -82,6 +83,7 @@ theorem C11_once_static (t : Tree) (hs : t.static = true) : ∀ (v n : Nat),
   | H id => intro v n; simp [run, labels, Kind.label]
   | G id => intro v n; simp [run, labels, Kind.label]
   | JM id x _ => intro v n; simp [run, labels]
+  | Z t ih => intro v n; simpa [run, labels] using ih (by simpa [Tree.static] using hs) 0 n
 
 /-- … hence one Eval of a static composition logs, after the old log, exactly the syntactic sequence of its
     effects/continuations, all on the evaluating goroutine — and `k` Evals log it `k` times (`C11_once`
@@ -223,7 +225,7 @@ theorem C11_model_refines_spec (line : String) : handle line = specCase line := 
       cases parseOp op with
       | none => exact ⟨h, rfl⟩
       | some o => exact rel_step s st o h
-    · refine ⟨?_, rfl, rfl, trivial, rfl⟩
+    · refine ⟨?_, rfl, rfl, trivial, rfl, rfl, rfl⟩
       intro k
       unfold istInit sstInit setReg
       by_cases hk : k = 0 <;> simp [hk, RelReg, den_obOn, den_subOn]
